@@ -417,7 +417,7 @@ func main() {
 	run.Assume("the in-memory parent value starts with the relation under test loaded (as after Preload) and every call of a sequence is made through the same value; argument records are fresh values carrying key and name only")
 	run.Assume("Unscoped is modelled as documented: records whose link an Unscoped Replace/Delete/Clear removes are deleted (not for many2many, where only join rows go); links a bystander parent holds to such a record stay stored")
 	run.Assume("Append() without values on a slice of parents may return ErrInvalidValueOfLength (one value per parent is gorm's rule) but must change nothing; left out as not determined by the documentation: several values for has-one/belongs-to; one keyed record given to both parents of a slice in one call (has-one/has-many/polymorphic); Append that moves a record between the two operated parents of a slice; Unscoped belongs-to Replace that hands the old record of one operated parent to the other; Count()/Find() multiplicity when two operated parents share a target (either the number of links or of distinct records is accepted)")
-	run.Assume("at most one record created from a key-less value is stored at any time (calls that would create more are disabled); canonical in-memory form is the sorted set of distinct elements (order and repetition inside the relation slice are not part of the state)")
+	run.Assume("calls with one key-less value are enabled while no record created from a key-less value is stored, calls with several key-less values likewise (so at most 2 such records are stored at any time); canonical in-memory form is the sorted set of distinct elements (order and repetition inside the relation slice are not part of the state)")
 
 	run.Finish(map[string]interface{}{
 		"states":                                total.States,
